@@ -176,3 +176,29 @@ func zzC06_ifdoff() {
 	zzAssert(err == nil && x.ImageWidth == ref.ImageWidth && x.Orientation == ref.Orientation, "a payload whose first directory is at offset 16 decodes alike from every container")
 	zzReached("end")
 }
+
+// a CR3 file with a free box between ftyp and moov (legal ISOBMFF padding): the metadata is the same as without it
+func zzC06_cr3free_N() int { return 2 }
+func zzC06_cr3free() {
+	p := zzPayload(false)
+	ref, eref := DecodeTiff(zzReaderOf(append(append([]byte{}, p...), make([]byte, 8)...)))
+	zzAssert(eref == nil, "the bare TIFF file decodes")
+	n := len(p)
+	b := []byte(zzFtypCR3)
+	b = append(b, 0, 0, 0, 16, 'f', 'r', 'e', 'e', 1, 2, 3, 4, 5, 6, 7, 8)
+	b = append(b, 0, 0, 0, byte(8+8+16+8+n), 'm', 'o', 'o', 'v')
+	b = append(b, 0, 0, 0, byte(8+16+8+n), 'u', 'u', 'i', 'd')
+	b = append(b, "\x85\xc0\xb6\x87\x82\x0f\x11\xe0\x81\x11\xf4\xce\x46\x2b\x6a\x48"...)
+	b = append(b, 0, 0, 0, byte(8+n), 'C', 'M', 'T', '1')
+	b = append(b, p...)
+	b = append(b, 0, 0, 0, 16, 'f', 'r', 'e', 'e', 1, 2, 3, 4, 5, 6, 7, 8)
+	var x exif2.Exif
+	if zzPart() == 0 {
+		x, _ = DecodeCR3(zzReaderOf(b))
+		zzAssert(zzSameFields(x, ref), "DecodeCR3: a free box before moov does not change the metadata")
+	} else {
+		x, _ = Decode(zzReaderOf(b))
+		zzAssert(zzSameFields(x, ref), "Decode (CR3): a free box before moov does not change the metadata")
+	}
+	zzReached("end")
+}
